@@ -1,5 +1,6 @@
 import CG.Proofs.C11
 import CG.Proofs.C11Nx
+import CG.Proofs.C11MinSep
 
 #print axioms CG.C11.isDSeparated_iff_DSep
 #print axioms CG.C11.isDSeparated_iff_DSepX
@@ -37,3 +38,27 @@ import CG.Proofs.C11Nx
 #print axioms CG.NxUF.uf_closed_form
 #print axioms CG.NxPrune.pruneReach_leaf_present
 #print axioms CG.NxPrune.pruneReach_on_run
+
+#print axioms CG.C11.nxIsMinimalDSeparator_eq
+#print axioms CG.C11.nxIsMinimalDSeparator_iff
+#print axioms CG.C11.nxMinimalDSeparator_isMinimal
+#print axioms CG.C11.nxMinimalDSeparator_isMinimal_set
+#print axioms CG.C11.nxIsMinimal_of_nxMinimal
+#print axioms CG.C11.four_tests_iff_minimalSep
+#print axioms CG.C11.zPrime_separates
+#print axioms CG.C11.nxMinimalDSeparator_ok_iff
+#print axioms CG.C11.nxMinimalDSeparator_errors
+#print axioms CG.C11.nxIsMinimalDSeparator_errors
+#print axioms CG.C11.nxMinimalDSeparator_adjacent
+#print axioms CG.C11.isMinimallyDSeparated_eq_nx
+#print axioms CG.C11.getDSeparationSet_nx
+#print axioms CG.C11.exM_run
+#print axioms CG.MinSepBfs.mem_bfsWithMarks
+#print axioms CG.MinSepMoral.dsep_iff_not_reach
+#print axioms CG.MinSepMoral.reach_closure
+#print axioms CG.MinSepDrop.minimalSep_within_anc
+#print axioms CG.MinSepDrop.dsep_drop_nonanc
+#print axioms CG.MinSepBfs.mem_bfsLoop_any_order
+#print axioms CG.MinSepBfs.bfsLoop_order_irrelevant
+#print axioms CG.MinSepBfs.bfsWithMarks_nodup
+#print axioms CG.C11.nxMinimalDSeparator_self
